@@ -927,3 +927,17 @@ func specXRWalk(buf []byte, off int) int {
 func lemmaXRFraming(p ExtendedReport) (out []byte, err error) {
 	return p.Marshal()
 }
+
+// specXROff: offset in the packet b of the n-th report block (n = 0: the first, right after header and sender
+// SSRC), following the block length fields; a block that claims more than what is left ends at the packet end.
+func specXROff(b []byte, n int) int {
+	if n <= 0 {
+		return 8
+	}
+	o := specXROff(b, n-1)
+	e := o + 4*(int(be16(b, o+2))+1)
+	if e > len(b) {
+		return len(b)
+	}
+	return e
+}
